@@ -49,7 +49,7 @@ class DomainParser:
         :return: a mapping between the type name and the appropriate PDDLType object.
         """
         self.logger.info("Starting to parse the types in the domain!")
-        pddl_types = {}
+        parent_names = {}
         same_types_objects = []
         index = 0
         while index < len(types):
@@ -58,29 +58,27 @@ class DomainParser:
                 index += 1
                 continue
 
-            pddl_type = types[index + 1]
-            parent_type = pddl_types.get(
-                pddl_type, PDDLType(name=pddl_type, parent=ObjectType)
-            )
-            pddl_types.update(
-                {
-                    descendant_typ_name: PDDLType(
-                        name=descendant_typ_name, parent=parent_type
-                    )
-                    for descendant_typ_name in same_types_objects
-                }
-            )
+            parent_name = types[index + 1]
+            for descendant_type_name in same_types_objects:
+                parent_names[descendant_type_name] = parent_name
+
+            # a parent that is never declared explicitly is a direct descendant of object.
+            parent_names.setdefault(parent_name, "object")
             same_types_objects = []
             index += 2
-            continue
 
-        if len(same_types_objects) > 0:
-            pddl_types.update(
-                {
-                    type_name: PDDLType(name=type_name, parent=ObjectType)
-                    for type_name in same_types_objects
-                }
-            )
+        for type_name in same_types_objects:
+            parent_names.setdefault(type_name, "object")
+
+        parent_names.pop("object", None)
+        # first creating all the types and only then linking them so that the declaration order does not matter.
+        pddl_types = {
+            type_name: PDDLType(name=type_name, parent=ObjectType)
+            for type_name in parent_names
+        }
+        for type_name, parent_name in parent_names.items():
+            if parent_name != "object":
+                pddl_types[type_name].parent = pddl_types[parent_name]
 
         pddl_types["object"] = ObjectType
         self.logger.debug(
